@@ -9,27 +9,27 @@ CLAIMED = {
              "transcription of validate.go incl. its compressed annotations) refines the specification-shaped validity relation "
              "(Eval.tla, written from the drafts); every enumerated behaviour is replayed through json.Unmarshal -> Resolve -> "
              "Validate on the real code and the verdicts compared. Bounded model checking plus conformance replay is the right "
-             "level for a relation over an infinite input space.",
+             "level for a relation over an infinite input space. In the other direction every Validate call on the repository's own test-suite inputs and on a seeded random driver is recorded through the verif frame hook and TLC (Trace.tla) accepts the trace only if the verdict of every frame equals the L0 verdict for that subschema, instance and dynamic scope.",
         note="Trusted: TLC, pools.py tables (python fractions/re), encoding/json decoding of instances, Go regexp on the "
              "portable pattern subset. Bounded universes: see DESIGN.md section 6 (C01).",
-        technique="TLA+ spec (Eval/EvalCode) model-checked with TLC; TLC-generated behaviours replayed on the real code",
+        technique="TLA+ spec (Eval/EvalCode) model-checked with TLC; TLC-generated behaviours replayed on the real code; traces recorded from the real code validated against Trace.tla",
         design="6/C01"),
     "C02": dict(
         text="Same machinery as C01 under draft-07: TLC checks EvalCode (code-shaped, with the draft-07 $ref short-circuit, "
              "items-array/additionalItems, dependencies, $id-as-anchor) against Eval (written from draft-07) on bounded universes, "
              "including the $schema configuration switch (absent / 2020-12 / two draft-07 spellings / unsupported values => refused) "
              "and draft-07 roots that load remote documents with and without their own $schema from the root and from subschemas; "
-             "every behaviour is replayed on the real code.",
+             "every behaviour is replayed on the real code. In the other direction every Validate call on the repository's own test-suite inputs and on a seeded random driver is recorded through the verif frame hook and TLC (Trace.tla) accepts the trace only if the verdict of every frame equals the L0 verdict for that subschema, instance and dynamic scope.",
         note="Trusted: as C01. Mixed-draft universes and 2020-only keywords inside draft-07 documents are outside the quantifier.",
-        technique="TLA+ spec (Eval/EvalCode/Resolve) model-checked with TLC; TLC-generated behaviours replayed on the real code",
+        technique="TLA+ spec (Eval/EvalCode/Resolve) model-checked with TLC; TLC-generated behaviours replayed on the real code; traces recorded from the real code validated against Trace.tla",
         design="6/C02"),
     "C07": dict(
         text="TLC checks that the code's compressed annotation record (allItems/endIndex/evaluatedIndexes/allProperties/"
              "evaluatedProperties, merged into the caller only on success) denotes exactly the specification's annotation sets and "
              "yields the same verdict, over universes that combine unevaluatedProperties/unevaluatedItems with every in-place "
-             "applicator, failing-then-passing branches, not, nested unevaluated*, $ref; every behaviour is replayed on the real code.",
+             "applicator, failing-then-passing branches, not, nested unevaluated*, $ref; every behaviour is replayed on the real code. In the other direction every Validate call on the repository's own test-suite inputs and on a seeded random driver is recorded through the verif frame hook and TLC (Trace.tla) accepts the trace only if the verdict of every frame equals the L0 verdict for that subschema, instance and dynamic scope.",
         note="Trusted: as C01.",
-        technique="TLA+ spec (Eval annotations vs EvalCode compressed annotations) model-checked with TLC; behaviours replayed on the real code",
+        technique="TLA+ spec (Eval annotations vs EvalCode compressed annotations) model-checked with TLC; behaviours replayed on the real code; traces recorded from the real code validated against Trace.tla",
         design="6/C07"),
     "C03": dict(
         text="TLC explores the resolver as a small-step machine (ResolverCode.tla: cache set before references are followed, "
@@ -47,9 +47,9 @@ CLAIMED = {
              "base) against the specification's rule (outermost resource of the dynamic scope declaring the $dynamicAnchor, "
              "static target otherwise) on all chains of 1..3 (thorough: 4) resources entered via $ref/$dynamicRef/allOf hops, "
              "embedded and Loader-supplied, with fragment / resource-relative / pointer final references; marked targets reveal "
-             "the chosen subschema; all instances of a case are validated on one Resolved (history of calls).",
+             "the chosen subschema; all instances of a case are validated on one Resolved (history of calls). In the other direction every Validate call on the repository's own test-suite inputs and on a seeded random driver is recorded through the verif frame hook and TLC (Trace.tla) accepts the trace only if the verdict of every frame equals the L0 verdict for that subschema, instance and dynamic scope.",
         note="Trusted: as C01.",
-        technique="TLA+ spec (Eval DynTarget vs EvalCode DynLookup) model-checked with TLC; behaviours replayed on the real code",
+        technique="TLA+ spec (Eval DynTarget vs EvalCode DynLookup) model-checked with TLC; behaviours replayed on the real code; traces recorded from the real code validated against Trace.tla",
         design="6/C06"),
     "C08": dict(
         text="TLC checks that the code's classification functions (jsonType, jsonNumber, the string-keyword kind guard) are "
